@@ -63,7 +63,7 @@ func (c *clock) KTimeNanos() int64 { return c.k }
 
 type mkey struct{ proto, id uint32 }
 
-func (k mkey) coq() string { return fmt.Sprintf("(%d,%d)%%N", k.proto, k.id) }
+func (k mkey) coq() string { return fmt.Sprintf("(K %d %d)", k.proto, k.id) }
 
 type mleg struct{ syn, ack, fin, rst bool }
 
@@ -481,7 +481,7 @@ func oneCase(r *rng, enc *json.Encoder, idx int) {
 	var ct0 []string
 	keys0 := sortedKeys(m.contents)
 	for _, k := range keys0 {
-		ct0 = append(ct0, fmt.Sprintf("(%s, %s)", k.coq(), m.contents[k].coq()))
+		ct0 = append(ct0, fmt.Sprintf("(CE %s %s)", k.coq(), m.contents[k].coq()))
 	}
 
 	ccq := mock.NewMockMap(conntrack.MapParamsCleanup)
@@ -578,7 +578,7 @@ func oneCase(r *rng, enc *json.Encoder, idx int) {
 	for _, run := range rec.runs {
 		var l []string
 		for _, q := range run {
-			l = append(l, fmt.Sprintf("(%s, (%s, %d, %d))", q.k.coq(), q.rk.coq(), q.ts, q.rts))
+			l = append(l, fmt.Sprintf("(QE %s %s %d %d)", q.k.coq(), q.rk.coq(), q.ts, q.rts))
 			nQueued++
 		}
 		obs = append(obs, "["+strings.Join(l, "; ")+"]")
